@@ -785,9 +785,10 @@ Proof.
   destruct (type_of_jag c1 H1) as (JT1 & OT1 & _). destruct (type_of_jag c2 H2) as (JT2 & OT2 & _).
   set (t1 := type_of c1) in *. set (t2 := type_of c2) in *. set (rows := rows2 t1 t2 vs1 vs2).
   assert (Hisn : map none_in rows = mask).
-  { apply rows2_none; [unfold zlen in Hz; lia| |]; intros E.
-    - apply (jag_nonopt_values c1 vs1 H1); [congruence|exact L1].
-    - apply (jag_nonopt_values c2 vs2 H2); [congruence|exact L2]. }
+  { unfold rows, mask, m1, m2. apply (rows2_none t1 t2 vs1 vs2).
+    - clear -Hz. unfold zlen in Hz. lia.
+    - intros E. apply (jag_nonopt_values c1 vs1 H1); [congruence|exact L1].
+    - intros E. apply (jag_nonopt_values c2 vs2 H2); [congruence|exact L2]. }
   pose proof (mapM_scatter (spec_v op false (S fuel)) (fun r => spec_v op false fuel (map strip_opt r)) none_in rows) as Hsc.
   rewrite Hisn in Hsc.
   assert (Hrows' : mapM (fun r => spec_v op false fuel (map strip_opt r)) (kept rows mask) =
